@@ -647,6 +647,12 @@ func runC09(r *run) {
 			a = append(a, "-", "-", hx(want))
 			emit(caseT{"render", a})
 		}
+		// Go-typed context data: loops in another order leave the caller's slices alone (also for the
+		// next loop and the next execution); integers of different Go kinds compare by value, and
+		// ifequal / ifnotequal stay complementary on them
+		for i := 0; i < 8; i++ {
+			emit(caseT{"gotyped", []string{fmt.Sprint(i)}})
+		}
 		// ifequal and ifnotequal are complementary for EVERY pair of operands, whatever
 		// "equal" means for the pair: exactly one of them takes its first branch
 		ops := []string{"nothere", "nil1", "one", "two", "zero", "1", "2", "2.0", "2.5", "f2", "f25", "\"2\"", "\"\"", "sempty", "str", "\"héy\"", "true", "false", "b1", "ws", "w0", "n0", "mp", "m0",
@@ -661,6 +667,47 @@ func runC09(r *run) {
 		}
 	}
 	driveCases(r, gen, func(r *run, c caseT) {
+		if c.op == "gotyped" {
+			var i int
+			fmt.Sscanf(c.args[0], "%d", &i)
+			xs, ss, fs := []int{3, 1, 2}, []string{"b", "a", "c"}, []float64{2.5, 0.5}
+			cx := func() pongo2.Context {
+				return pongo2.Context{"xs": xs, "ss": ss, "fs": fs, "a": uint(3), "b": int64(3), "c": int8(3), "d": 3, "e": uint8(4), "l64": []int64{1, 2, 3, 2}, "lu": []uint{1, 2, 3, 2}}
+			}
+			var src, want string
+			if i%2 == 0 {
+				src = "{% for x in xs sorted %}{{ x }} {% endfor %}|{% for x in xs %}{{ forloop.Counter }}:{{ x }} {% endfor %}|{% for x in xs reversed %}{{ x }} {% endfor %}|{% for x in xs reversed sorted %}{{ x }}{% endfor %}|{% for x in xs %}{{ x }}{% endfor %}" +
+					"|{% for x in ss sorted %}{{ x }}{% endfor %}|{% for x in ss %}{{ x }}{% endfor %}|{% for x in fs sorted %}{{ x|floatformat:1 }}{% endfor %}|{% for x in fs %}{{ x|floatformat:1 }}{% endfor %}"
+				want = "1 2 3 |1:3 2:1 3:2 |2 1 3 |321|312|abc|bac|0.52.5|2.50.5"
+			} else {
+				pairs := [][2]string{{"a", "3"}, {"b", "3"}, {"c", "d"}, {"a", "b"}, {"e", "4"}, {"a", "e"}, {"b", "4"}, {"c", "c"}}
+				for _, p := range pairs {
+					src += "{% ifequal " + p[0] + " " + p[1] + " %}E{% else %}N{% endifequal %}{% ifnotequal " + p[0] + " " + p[1] + " %}N{% else %}E{% endifnotequal %}{% if " + p[0] + " == " + p[1] + " %}E{% else %}N{% endif %} "
+				}
+				want = "EEE EEE EEE EEE EEE NNN NNN EEE "
+				src += "|{% for v in l64 %}{% ifequal v 2 %}={% else %}#{% endifequal %}{% ifnotequal v 2 %}#{% else %}={% endifnotequal %}{% endfor %}|{% for v in lu %}{% ifchanged v %}{{ v }}{% endifchanged %}{% endfor %}"
+				want += "|##==##==|1232"
+			}
+			tpl, err := pongo2.FromString(src)
+			must(err)
+			id := -1
+			for k := 0; k < 3; k++ {
+				out, xerr, p := execVariant(tpl, cx(), k)
+				if (p != nil || xerr != nil || out != want) && id < 0 {
+					id = r.emit(c.op, c.args, "gotyped")
+					r.reject(id, "control tags over Go-typed context data do not follow their reference semantics (or changed the caller's data)", map[string]any{"template": src, "execution": k + 1, "observed": out, "expected": want, "error": fmt.Sprint(xerr, p)})
+				}
+			}
+			if fmt.Sprint(xs, ss, fs) != "[3 1 2] [b a c] [2.5 0.5]" && id < 0 {
+				id = r.emit(c.op, c.args, "gotyped")
+				r.reject(id, "a loop reordered the caller's slice", map[string]any{"template": src, "after": fmt.Sprint(xs, ss, fs)})
+			}
+			if id < 0 {
+				r.emit(c.op, c.args, "gotyped")
+			}
+			r.nontrivial("gotyped" + c.args[0])
+			return
+		}
 		w, src, ctx := worldFromArgs(c.args)
 		o, _ := w.render(src, false, ctx)
 		op := c.op
